@@ -1,4 +1,5 @@
 import XlModel.Ref
+import XlModel.RefApi
 import XlModel.Drv.Util
 namespace XlModel.Drv.C20
 open XlModel XlModel.Ref XlModel.Drv
@@ -10,6 +11,11 @@ def showE {α} (f : α → String) : Except Err α → String
 def specS (s : List Char) : String :=
   match parseA1 s with
   | some (c, r) => s!"S={c},{r}"
+  | none => "S=none"
+
+def specR (s : List Char) : String :=
+  match parseRangeStrict s with
+  | some (a, b, c, d) => s!"S={a},{b},{c},{d}"
   | none => "S=none"
 
 def step (w : List String) : String :=
@@ -33,7 +39,15 @@ def step (w : List String) : String :=
     | some c, some r => showE hexS (coordinatesToCellName c r (a = "1"))
     | _, _ => "bad-op"
   | ["rng", h] => match unhexS h with
-    | some s => showE (fun (q : Int × Int × Int × Int) => s!"{q.1} {q.2.1} {q.2.2.1} {q.2.2.2}") (rangeRefToCoordinates s)
+    | some s => showE (fun (q : Int × Int × Int × Int) => s!"{q.1} {q.2.1} {q.2.2.1} {q.2.2.2}") (rangeRefToCoordinates s) ++ " " ++ specR s
+    | none => "bad-op"
+  | ["rngapi", ha, hb] => match unhexS ha, unhexS hb with
+    | some a, some b => match mergeCellRef a b with
+      | some ref => "A " ++ hexS ref ++ " U0"
+      | none => "R"
+    | _, _ => "bad-op"
+  | ["paths", h] => match unhexS h with
+    | some s => String.ofList (pathsOp s)
     | none => "bad-op"
   | ["c2rng", a, b, c, d, ab] => match parseInt? a, parseInt? b, parseInt? c, parseInt? d with
     | some a, some b, some c, some d => showE hexS (coordinatesToRangeRef (sortCoordinates (a, b, c, d)) (ab = "1"))
